@@ -230,16 +230,32 @@ root("spaceref",
      [q("S", "f", 0), q("S", "f2", 0), q("S", "g", 0)])
 
 
+# 14. a cells derived from the first of two bases defining it, no references involved (nothing else changes in the
+# sub's namespace when the derived cells changes its origin); callers in the sub and in another space
+root("twobases",
+     {"spaces": {"B1": {"cells": {"rate": L + "10 * x"}},
+                 "B2": {"cells": {"rate": L + "20 * x"}},
+                 "Sub": {"bases": ["B1", "B2"], "cells": {"total": L + "rate(x) + 1"}},
+                 "O": {"refs": {"s": obj("Sub")}, "cells": {"view": L + "s.rate(x) + 2"}}}},
+     [q("Sub", "total", 1), q("O", "view", 1), q("Sub", "rate", 1)],
+     [del_cells("B1", "rate"), remove_bases("Sub", "B1"), add_bases("Sub", "B1"),
+      new_cells("B1", "rate", L + "30 * x"), set_formula("B1", "rate", L + "40 * x"),
+      set_formula("B2", "rate", L + "50 * x"), set_formula("Sub", "rate", L + "60 * x"), del_cells("Sub", "rate"),
+      set_input("B1", "rate", [1], 7), rename_cells("B1", "rate", "rate2")],
+     [q("Sub", "total", 1), q("O", "view", 1)])
+
 # 13. a chain through two uncached levels to an attribute-path / by-name reference, caller in another space
 root("uncachain",
-     {"spaces": {"S": {"cells": {"c": L + "u1(x) + 1", "u1": L + "u2(x)", "u2": L + "T.q + x"},
+     {"spaces": {"S": {"cells": {"c": L + "u1(x) + 1", "u1": {"src": L + "u2(x)", "cached": False},
+                                 "u2": {"src": L + "T.q + x + leaf(x)", "cached": False}, "leaf": L + "x + 1"},
                        "spaces": {"T": {"refs": {"q": 1}}}},
                  "O": {"refs": {"s": obj("S"), "w": 1},
                        "cells": {"oc": L + "s.u1(x) + w", "ob": L + "s.c(x)"}}}},
      [q("S", "c", 0), q("S", "c", 1), q("O", "oc", 0), q("O", "ob", 0)],
      [set_ref("S.T", "q", 2), del_ref("S.T", "q"), set_ref("", "q", 9), set_ref("O", "w", 2),
       set_cached("S", "u1", False), set_cached("S", "u1", True), set_cached("S", "u2", False),
-      set_cached("S", "u2", True), set_cached("S", "c", False), set_formula("S", "u2", L + "T.q + x + 100")],
+      set_cached("S", "u2", True), set_cached("S", "c", False), set_formula("S", "u2", L + "T.q + x + 100"),
+      set_formula("S", "leaf", L + "x + 50"), set_input("S", "leaf", [0], 70), cl("clear_all", "S", "leaf")],
      [q("S", "c", 0), q("O", "oc", 0)])
 
 # 12. a model-level reference reached by attribute path through a space, then shadowed / un-shadowed there
@@ -305,7 +321,7 @@ _add_flag_ops()
 def prune_noop_flags(hist, alphabet, initially_uncached=()):
     """Drop is_cached assignments that cannot change anything in the state reached by hist (the flag already
     has that value according to the flag assignments made so far)."""
-    unc = set(initially_uncached)
+    unc = set(tuple(u) for u in initially_uncached)
     for op in hist:
         if op["op"] == "set_cached":
             (unc.discard if op["v"] else unc.add)((op["sp"], op["c"]))
